@@ -423,15 +423,20 @@ class set:
             self.config = config
             self._record = []
 
-            if arg is not None:
-                for key, value in arg.items():
-                    key = check_deprecations(key)
-                    self._assign(key.split("."), value, config)
-            if kwargs:
-                for key, value in kwargs.items():
-                    key = key.replace("__", ".")
-                    key = check_deprecations(key)
-                    self._assign(key.split("."), value, config)
+            try:
+                if arg is not None:
+                    for key, value in arg.items():
+                        key = check_deprecations(key)
+                        self._assign(key.split("."), value, config)
+                if kwargs:
+                    for key, value in kwargs.items():
+                        key = key.replace("__", ".")
+                        key = check_deprecations(key)
+                        self._assign(key.split("."), value, config)
+            except BaseException:
+                # Roll back the assignments made before the failing one
+                self.__exit__(None, None, None)
+                raise
 
     def __enter__(self):
         return self.config
